@@ -2,6 +2,8 @@ package rules
 
 import (
 	"fmt"
+	"go/token"
+	"os"
 	"strings"
 
 	"verifchk/internal/an"
@@ -17,17 +19,38 @@ func goroutineWriteRule(c *an.Ctx, fn *ssa.Function, role string) int {
 	n := 0
 	for _, g := range an.GoClosures(fn) {
 		mc, isClosure := g.Go.Call.Value.(*ssa.MakeClosure)
-		if !isClosure {
-			continue // go f(x): no captured state
-		}
 		n++
 		c.Subject()
 		c.Mark(g.Fn)
 		multi := an.InLoop(g.Go.Block())
 		base := fmt.Sprintf("%s|go#%d", role, n)
-		writes := an.ClosureWrites(g.Fn)
+		// state handed to the goroutine as pointer / map arguments: maps reached from them must be written under a lock
+		pw := an.ParamWrites(g.Fn)
+		badParam := false
+		for _, w := range pw {
+			if w.Kind != "mapupdate" && w.Kind != "mapdelete" {
+				continue
+			}
+			locked := false
+			for _, h := range w.Locked {
+				if h.Mode == "x" {
+					locked = true
+				}
+			}
+			if !locked && multi {
+				badParam = true
+				c.Ob(fmt.Sprintf("%s|param %s", base, an.TypeShort(w.Param.Type())), w.Instr.Pos(), false,
+					"unsynchronised %s on a map reached from parameter `%s`, which every sibling goroutine of the loop receives: two simultaneous writers abort the process with 'fatal error: concurrent map writes'", w.Kind, w.Param.Name())
+			}
+		}
+		var writes []an.SharedWrite
+		if isClosure {
+			writes = an.ClosureWrites(g.Fn)
+		}
 		if len(writes) == 0 {
-			c.Ob(base+"|no-shared-writes", g.Go.Pos(), true, "goroutine body writes nothing through captured variables (multi-instance=%v)", multi)
+			if !badParam {
+				c.Ob(base+"|no-shared-writes", g.Go.Pos(), true, "goroutine body writes nothing unsynchronised through captured variables or shared arguments (multi-instance=%v, %d writes through parameters checked)", multi, len(pw))
+			}
 			continue
 		}
 		type agg struct {
@@ -181,4 +204,150 @@ func spawnerAccessesBeforeJoin(g *ssa.Go, mc *ssa.MakeClosure, fv *ssa.FreeVar) 
 		}
 	}
 	return false
+}
+
+// leafAssertOK: atom says "the type assertion / type switch case to leaf role type T succeeded"; returns T.
+func leafAssertOK(a an.Atom) (string, bool) {
+	if a.Y != nil || !a.Val {
+		return "", false
+	}
+	ex, ok := a.X.(*ssa.Extract)
+	if !ok || ex.Index != 1 {
+		return "", false
+	}
+	ta, ok := ex.Tuple.(*ssa.TypeAssert)
+	if !ok {
+		return "", false
+	}
+	n := an.TypeShort(ta.AssertedType)
+	if n == "*workflow.taskRole" || n == "*workflow.callRole" {
+		return n, true
+	}
+	return "", false
+}
+
+// criticalRead: atom is a plain boolean read of field Critical (or IsCritical()) of a value type-asserted to a leaf role
+// type; returns that type and the polarity.
+func criticalRead(a an.Atom) (string, bool, bool) {
+	if a.Y != nil {
+		return "", false, false
+	}
+	v := a.X
+	if call, ok := v.(*ssa.Call); ok && an.MethodName(&call.Call) == "IsCritical" {
+		args := an.Args(&call.Call)
+		if len(args) > 0 {
+			if t := assertedLeaf(args[0]); t != "" {
+				return t, a.Val, true
+			}
+		}
+		return "", false, false
+	}
+	if !isFieldNamed(v, "Critical") {
+		return "", false, false
+	}
+	base := an.FieldBase(v)
+	for base != nil {
+		if t := assertedLeaf(base); t != "" {
+			return t, a.Val, true
+		}
+		if nb := an.FieldBase(base); nb != nil {
+			base = nb
+			continue
+		}
+		if u, isU := base.(*ssa.UnOp); isU && u.Op == token.MUL {
+			if nb := an.FieldBase(u.X); nb != nil {
+				base = nb
+				continue
+			}
+		}
+		break
+	}
+	return "", false, false
+}
+
+func assertedLeaf(v ssa.Value) string {
+	v = an.Strip(v)
+	if ex, ok := v.(*ssa.Extract); ok {
+		if ta, ok := ex.Tuple.(*ssa.TypeAssert); ok {
+			n := an.TypeShort(ta.AssertedType)
+			if n == "*workflow.taskRole" || n == "*workflow.callRole" {
+				return n
+			}
+		}
+	}
+	if ta, ok := v.(*ssa.TypeAssert); ok {
+		n := an.TypeShort(ta.AssertedType)
+		if n == "*workflow.taskRole" || n == "*workflow.callRole" {
+			return n
+		}
+	}
+	return ""
+}
+
+// foldSkipsExactlyNonCritical decides, on the guard alternatives of the fold call (so through helper results and
+// boolean variables too): a leaf role reaches the fold only when its Critical flag is known true, and an iteration
+// that skips the fold does so only for a leaf whose Critical flag is known false.
+func foldSkipsExactlyNonCritical(fold ssa.Instruction) (ok bool, leafTypes map[string]bool, why []string) {
+	leafTypes = map[string]bool{}
+	ok = true
+	xb := fold.Block()
+	for _, alt := range an.AtomAlts(xb) {
+		if os.Getenv("VERIF_DEBUG") != "" {
+			fmt.Fprintf(os.Stderr, "ALT:")
+			for _, a := range alt {
+				y := "<nil>"
+				if a.Y != nil {
+					y = a.Y.String()
+				}
+				fmt.Fprintf(os.Stderr, " [%s %s(%s) %s %v]", a.Op, a.X.Name(), a.X.String(), y, a.Val)
+			}
+			fmt.Fprintln(os.Stderr)
+		}
+		leafs := map[string]bool{}
+		crit := map[string]bool{}
+		for _, a := range alt {
+			if t, is := leafAssertOK(a); is {
+				leafs[t] = true
+			}
+			if t, val, is := criticalRead(a); is {
+				leafTypes[t] = true
+				if val {
+					crit[t] = true
+				}
+			}
+		}
+		for t := range leafs {
+			if !crit[t] {
+				ok = false
+				why = append(why, "a "+t+" can reach the fold without its Critical flag being true")
+			}
+		}
+	}
+	// skipped iterations
+	h, body := an.EnclosingLoop(xb)
+	if h == nil {
+		return false, leafTypes, append(why, "the fold is not in a loop")
+	}
+	for _, p := range h.Preds {
+		if !body[p] || p == xb || xb.Dominates(p) {
+			continue // not a back edge, or the iteration passed the fold
+		}
+		if an.CanReachAvoiding(xb.Instrs[0], p.Instrs[0], []ssa.Instruction{h.Instrs[0]}) {
+			continue // latch shared by folding and skipping paths: not decided here
+		}
+		// p ends an iteration that skipped the fold: on every such path a leaf's Critical flag must be known false
+		for _, alt := range an.EdgeAlts(p, h) {
+			nonCrit := false
+			for _, a := range alt {
+				if _, val, is := criticalRead(a); is && !val {
+					nonCrit = true
+				}
+			}
+			if !nonCrit {
+				ok = false
+				why = append(why, "a role can be skipped by the fold without being a non-critical leaf")
+			}
+		}
+	}
+	return ok, leafTypes, why
 }
